@@ -47,6 +47,12 @@ int main(void) {
             char *save = NULL;
             for(char *o = strtok_r(ops, ",", &save); o && wok; o = strtok_r(NULL, ",", &save)) {
                 if(o[0] == 'E') { if(zck_end_chunk(z) < 0) wok = 0; }
+                else if(o[0] == 'X') {   /* X<count>:<hex>  one zck_write of <hex> repeated <count> times */
+                    char *p; long cnt = strtol(o + 1, &p, 10); size_t n; unsigned char *raw = zh_unhex(p + 1, &n);
+                    unsigned char *big = malloc(n * cnt + 1);
+                    for(long q = 0; q < cnt; q++) memcpy(big + q * n, raw, n);
+                    if(zck_write(z, (char*)big, n * cnt) != (ssize_t)(n * cnt)) wok = 0;
+                    free(big); free(raw); }
                 else { size_t n; unsigned char *raw = zh_unhex(o + 1, &n);
                        if(zck_write(z, (char*)raw, n) != (ssize_t)n) wok = 0; free(raw); }
             }
